@@ -92,6 +92,18 @@ pub fn headermap_str(h: &http::HeaderMap) -> String {
     items.join(";")
 }
 
+pub const PROTOCOLS: [(&str, h3::ext::Protocol); 4] = [
+    ("webtransport", h3::ext::Protocol::WEB_TRANSPORT),
+    ("connect-udp", h3::ext::Protocol::CONNECT_UDP),
+    ("connect-ip", h3::ext::Protocol::CONNECT_IP),
+    ("websocket", h3::ext::Protocol::WEBSOCKET),
+];
+
+/// Which of the four constants a Protocol value is (not through `as_str`, which is code under test).
+pub fn protocol_name(p: &h3::ext::Protocol) -> &'static str {
+    PROTOCOLS.iter().find(|(_, c)| c == p).map(|(n, _)| *n).unwrap_or("?")
+}
+
 pub fn headermap_fields(h: &http::HeaderMap) -> Vec<(Vec<u8>, Vec<u8>)> {
     let mut v: Vec<(Vec<u8>, Vec<u8>)> = h.iter().map(|(n, v)| (n.as_str().as_bytes().to_vec(), v.as_bytes().to_vec())).collect();
     v.sort();
@@ -110,6 +122,8 @@ pub struct MsgObs {
     pub head_info: String,
     /// what the application was given, piece by piece: (method, scheme, authority, path and query) of a request
     pub req_target: Option<(String, Option<String>, Option<String>, Option<Vec<u8>>)>,
+    /// the Protocol extension handed over with a request, named by comparing it with the four constants
+    pub protocol: Option<&'static str>,
     /// status of a response
     pub status: Option<u16>,
     /// regular fields of the head as the application sees them, sorted
@@ -182,6 +196,7 @@ pub async fn server_handler(
             req.uri().path_and_query().map(|p| p.as_str().as_bytes().to_vec()),
         ));
         o.head_fields = headermap_fields(req.headers());
+        o.protocol = req.extensions().get::<h3::ext::Protocol>().map(protocol_name);
     }
     loop {
         app_pause().await;
